@@ -103,7 +103,10 @@ def one_run(desc, k, sseed, calibrate=False):
     if desc.get('dup'):
         # every fourth answer arrives twice (the acknowledgement of the first copy was lost on the air)
         drnd = random.Random(desc['seed'] ^ 0xD0B1)
-        spec.reply_policy = lambda sp, n, h, d: [(0.0, h, d)] + ([(drnd.choice((0.0, 0.0, 0.0004)), h, d)] if drnd.random() < 0.25 else [])
+        # the copy comes right behind the original or (half of these cases) late: several answers further on, when the
+        # library is already in a later phase of the connection sequence
+        gaps = (0.0, 0.0, 0.0004) if (desc['seed'] // 3) % 2 else (0.0, 0.0004, 0.003, 0.011, 0.05)
+        spec.reply_policy = lambda sp, n, h, d: [(0.0, h, d)] + ([(drnd.choice(gaps), h, d)] if drnd.random() < 0.25 else [])
     res = {'violations': [], 'fired': False, 'phase': None, 'kmax': None, 'overlap': False}
 
     def with_notifications(base):
